@@ -6,6 +6,11 @@
 //	OK <sexp> <hex(String())>
 //	ERR <class> <hex(message)>
 //
+// Modes: (none) / -api  tie leg (compared with the extracted Coq model);
+// -regex  oracle for the model's regex_ok; -c02 / -c03 / -c04  search legs of
+// the checks C02, C03, C04 (search.go): the property evaluated on the
+// implementation's own outputs.
+//
 // where <sexp> is a canonical dump of the tree obtained only through the
 // exported accessors (plus reflection for the two unexported RegexNode fields)
 // and <class> is a coarse error class derived from the message text.
@@ -261,6 +266,25 @@ func classify(msg string) string {
 	return "other"
 }
 
+// dumpAST is the canonical dump of a parsed path: mode, predicate flag and the
+// tree as seen through the exported accessors.
+func dumpAST(tree *ast.AST) string {
+	var b strings.Builder
+	if tree.IsLax() {
+		b.WriteString("(path lax ")
+	} else {
+		b.WriteString("(path strict ")
+	}
+	if tree.IsPredicate() {
+		b.WriteString("pred ")
+	} else {
+		b.WriteString("nopred ")
+	}
+	chain(&b, tree.Root())
+	b.WriteByte(')')
+	return b.String()
+}
+
 type result struct {
 	ok   bool
 	line string
@@ -279,20 +303,7 @@ func run(src string) (res result) {
 	if err != nil {
 		return result{false, fmt.Sprintf("ERR %s %s", classify(err.Error()), hx(err.Error()))}
 	}
-	var b strings.Builder
-	if tree.IsLax() {
-		b.WriteString("(path lax ")
-	} else {
-		b.WriteString("(path strict ")
-	}
-	if tree.IsPredicate() {
-		b.WriteString("pred ")
-	} else {
-		b.WriteString("nopred ")
-	}
-	chain(&b, tree.Root())
-	b.WriteByte(')')
-	return result{true, fmt.Sprintf("OK %s %s", b.String(), hx(tree.String()))}
+	return result{true, fmt.Sprintf("OK %s %s", dumpAST(tree), hx(tree.String()))}
 }
 
 // api exercises the path.go wrappers on the same input and reports a compact
@@ -366,11 +377,26 @@ func regexOracle() {
 }
 
 func main() {
-	if len(os.Args) > 1 && os.Args[1] == "-regex" {
+	mode := ""
+	if len(os.Args) > 1 {
+		mode = os.Args[1]
+	}
+	switch mode {
+	case "-regex":
 		regexOracle()
 		return
+	case "-c02":
+		searchMain(c02Line)
+		return
+	case "-c03":
+		searchMain(c03Line)
+		return
+	case "-c04":
+		fmt.Println(c04Preamble())
+		searchMain(c04Line)
+		return
 	}
-	withAPI := len(os.Args) > 1 && os.Args[1] == "-api"
+	withAPI := mode == "-api"
 	in := bufio.NewScanner(os.Stdin)
 	in.Buffer(make([]byte, 1<<20), 1<<26)
 	out := bufio.NewWriter(os.Stdout)
